@@ -59,6 +59,8 @@ class Numbers(Sub):
             yield ['pct', h]
         for a in range(0, 13):
             yield ['pow', a]
+        for a in (2, 3, 7, 10, 17, 99):
+            yield ['bigpow', a]
         yield ['long']
 
     def one(self, env, text, exact, kind):
@@ -121,6 +123,13 @@ class Numbers(Sub):
             for b in range(0, 13):
                 if a == 0 and b == 0:
                     continue
+                f = self.one(env, '%d^%d' % (a, b), Fraction(a ** b), 'int')
+                if f:
+                    out.append(f)
+        elif case[0] == 'bigpow':
+            # integer^integer beyond 2^53: the literal spells an exact integer, not its nearest double
+            a = case[1]
+            for b in range(13, 61):
                 f = self.one(env, '%d^%d' % (a, b), Fraction(a ** b), 'int')
                 if f:
                     out.append(f)
